@@ -316,6 +316,58 @@ def r14_5(ctx: Ctx) -> None:
            "an incompatible component abandons the merge without touching the module lists", form="")
 
 
+DI = "antismash/detection/nrps_pks_domains/domain_identification.py"
+
+
+def r14_6(ctx: Ctx) -> None:
+    """ a module's domain features are fetched gene by gene: the component of a module that spans two genes belongs
+        to the gene named by component.locus, and equal-valued domains of different genes are equal as keys """
+    from ..flow import inline_reaching, path_facts
+    qual = "NRPSPKSDomains.add_to_record"
+    func = ctx.fn(DI, qual)
+    cfg = CFG(func)
+    loops = [n for n in walk_local(func) if isinstance(n, ast.For) and isinstance(n.target, ast.Name)
+             and any(isinstance(x, ast.Attribute) and x.attr == "domain_features" for x in ast.walk(n))
+             and not any(isinstance(x, ast.For) and any(isinstance(y, ast.Attribute) and y.attr == "domain_features" for y in ast.walk(x))
+                         for b in n.body for x in ast.walk(b))]
+    if not loops:
+        raise AnalysisError(f"{qual}: loop over a module's components (with domain_features lookups) not found")
+    count = 0
+    for loop in loops:
+        var = loop.target.id  # type: ignore[attr-defined]
+        for node in walk_local(loop):
+            recv = None
+            if isinstance(node, ast.Subscript) and isinstance(node.ctx, ast.Load) and isinstance(node.value, ast.Attribute) \
+                    and node.value.attr == "domain_features":
+                recv, key = node.value.value, node.slice
+            elif isinstance(node, ast.Call) and isinstance(node.func, ast.Attribute) and node.func.attr in ("get", "pop", "setdefault") \
+                    and isinstance(node.func.value, ast.Attribute) and node.func.value.attr == "domain_features" and node.args:
+                recv, key = node.func.value.value, node.args[0]
+            if recv is None or var not in {n.id for n in ast.walk(key) if isinstance(n, ast.Name)}:
+                continue
+            count += 1
+            resolved = txt(inline_reaching(cfg, node, recv))
+            by_locus = f"{var}.locus" in resolved
+            own = False
+            for expr, truth in path_facts(cfg, node):
+                if truth and isinstance(expr, ast.Compare) and len(expr.ops) == 1 and isinstance(expr.ops[0], ast.Eq):
+                    sides = [txt(expr.left), txt(expr.comparators[0])]
+                    if f"{var}.locus" in sides:
+                        other = sides[1 - sides.index(f"{var}.locus")]
+                        gene = other[:-len(".get_name()")] if other.endswith(".get_name()") else None
+                        if gene and (f"({gene})" in resolved or f"[{gene}]" in resolved):
+                            own = True
+            ctx.ob("R14.6", DI, node, qual, f"domain feature of a component from {txt(recv)}", by_locus or own,
+                   "the domain feature of a module component is fetched from the results of the gene named by "
+                   "component.locus (directly, or from the current gene's results only under the test that the locus is "
+                   "the current gene)",
+                   detail="" if by_locus or own else "lookup is not tied to the component's locus: an equal-valued domain of "
+                                                     "the current gene is taken for a component of the neighbouring gene",
+                   form=f"{txt(node)} with receiver {resolved[:80]}")
+    if count < 2:
+        raise AnalysisError(f"{qual}: expected 2 domain feature lookups, found {count}")
+
+
 def run(ctx: Ctx) -> None:
     ctx.rule("R14.1", "singleton slots are write-once", floor=5)
     ctx.rule("R14.2", "validate before mutate; each component added exactly once; refusals handled", floor=16)
@@ -327,3 +379,5 @@ def run(ctx: Ctx) -> None:
     r14_3(ctx)
     r14_4(ctx)
     r14_5(ctx)
+    ctx.rule("R14.6", "module features take each component's domain from the component's own gene", floor=2)
+    r14_6(ctx)
